@@ -158,6 +158,9 @@ var funcmap = FuncMap{
 			return []Attribute{{Name: k, BoolVal: &b}}
 		}
 		if v, ok := v.(Object); ok {
+			if k == "class" {
+				return []Attribute{{Name: k, Val: JavaScriptExpression(classNames(v)), MustEscape: e}}
+			}
 			return []Attribute{{Name: k, Val: JavaScriptExpression(v.String()), MustEscape: e}}
 		}
 		if v, ok := v.(string); ok {
@@ -250,6 +253,8 @@ var funcmap = FuncMap{
 			if b, ok := x.Member(k).(Bool); ok {
 				boolval := b.True()
 				res = append(res, Attribute{Name: k, Val: JavaScriptExpression(x.Member(k).String()), MustEscape: true, BoolVal: &boolval})
+			} else if k == "class" {
+				res = append(res, Attribute{Name: k, Val: JavaScriptExpression(classNames(x.Member(k))), MustEscape: true})
 			} else {
 				res = append(res, Attribute{Name: k, Val: JavaScriptExpression(x.Member(k).String()), MustEscape: true})
 			}
@@ -266,6 +271,31 @@ var funcmap = FuncMap{
 	"__freeze": func(name string) Nil {
 		return Nil{}
 	},
+}
+
+// classNames is the text of a class value: the entries of an array (also a nested one)
+// joined by one space, without entries that are false, null or empty
+func classNames(v Object) string {
+	arr, ok := v.(*Array)
+	if !ok {
+		return v.String()
+	}
+	var names []string
+	for _, item := range arr.items {
+		if item == nil {
+			continue
+		}
+		if _, ok := item.(Nil); ok {
+			continue
+		}
+		if b, ok := item.(Bool); ok && !b.True() {
+			continue
+		}
+		if name := classNames(item); name != "" {
+			names = append(names, name)
+		}
+	}
+	return strings.Join(names, " ")
 }
 
 func runtimeAdd(l, r interface{}) Object {
